@@ -174,6 +174,14 @@ int main(int argc, char** argv)
         reporter.error("{}", e.what());
         return 1;
     }
+    catch(const std::exception& e)
+    {
+        // anything that is not a schema error, e.g. from the standard library
+        // (I/O, allocation), still has to end with a diagnostic and a non-zero
+        // exit status instead of `std::terminate`
+        reporter.error("unexpected error: {}", e.what());
+        return 1;
+    }
 
     return 0;
 }
